@@ -385,6 +385,17 @@ pub fn property() -> Property {
                 obs.sample(|| json!({"buffer": bufsize, "replies": replies.iter().map(|p| hex(p)).collect::<Vec<_>>()}));
                 check_scenario(bufsize, &replies, obs)
             }),
+            SubCheck::tape("fuzz_bytes", "raw bytes (entry of the libFuzzer target fz_diag): byte 0 selects the buffer size, the rest is the reply PDU, fed twice", |t, obs| {
+                let b = t.rest_bytes();
+                let bufsize = match b.first().copied().unwrap_or(0) {
+                    0 => None,
+                    1 => Some(0),
+                    n => Some(usize::from(n)),
+                };
+                let pdu = b.get(1..).unwrap_or(&[]).to_vec();
+                let pdu = pdu[..pdu.len().min(244)].to_vec();
+                check_scenario(bufsize, &[pdu.clone(), pdu], obs)
+            }),
             SubCheck::tape("scanner", "DpScanner decodes ident and master address of generated replies", |t, obs| {
                 let pdu: Vec<u8> = if t.chance(1, 8) { let n = t.below(6) as usize; t.fill(n) } else {
                     let mut p = gen_header(t, None).to_vec();
